@@ -1004,7 +1004,18 @@ func purityInventoryOf(p *Program, rule, okKey, what string, minFuncs int, prefi
 										continue
 									}
 									if sc := y.Common().StaticCallee(); sc == nil || !(strings.HasSuffix(fnPkgPath(sc), "/internal/slices") || fnPkgPath(sc) == "slices") {
-										ro = false
+										// handed to an in-repo function that only reads that parameter
+										okArg := sc != nil && inRepoFn(sc)
+										if okArg {
+											for ai, a := range y.Common().Args {
+												if a == ssa.Value(ld) && !sliceParamReadOnly(sc, ai, 0) {
+													okArg = false
+												}
+											}
+										}
+										if !okArg {
+											ro = false
+										}
 									}
 								default:
 									ro = false
@@ -1048,6 +1059,58 @@ func purityInventoryOf(p *Program, rule, okKey, what string, minFuncs int, prefi
 	}
 	r.floor("functions", minFuncs)
 	return r
+}
+
+// sliceParamReadOnly: the idx-th parameter (a slice) of fn is only indexed,
+// ranged over, measured, or handed to functions that do the same; it is not
+// written through, resliced, stored or returned.
+func sliceParamReadOnly(fn *ssa.Function, idx int, depth int) bool {
+	if depth > 3 || idx >= len(fn.Params) || len(fn.Blocks) == 0 {
+		return false
+	}
+	prm := fn.Params[idx]
+	if prm.Referrers() == nil {
+		return true
+	}
+	for _, ref := range *prm.Referrers() {
+		switch y := ref.(type) {
+		case *ssa.Range, *ssa.DebugRef, *ssa.Index:
+		case *ssa.IndexAddr:
+			for _, r3 := range *y.Referrers() {
+				switch z := r3.(type) {
+				case *ssa.UnOp, *ssa.DebugRef:
+				case *ssa.Store:
+					if z.Addr == ssa.Value(y) {
+						return false
+					}
+				default:
+					return false
+				}
+			}
+		case *ssa.Call:
+			if bi, ok := y.Common().Value.(*ssa.Builtin); ok && bi.Name() == "len" {
+				continue
+			}
+			sc := y.Common().StaticCallee()
+			if sc == nil {
+				return false
+			}
+			if strings.HasSuffix(fnPkgPath(sc), "/internal/slices") || fnPkgPath(sc) == "slices" {
+				continue
+			}
+			if !inRepoFn(sc) {
+				return false
+			}
+			for ai, a := range y.Common().Args {
+				if a == ssa.Value(prm) && !sliceParamReadOnly(sc, ai, depth+1) {
+					return false
+				}
+			}
+		default:
+			return false
+		}
+	}
+	return true
 }
 
 // NAV8 / TYP7: navigation and the type hierarchy are pure functions of their
